@@ -1,4 +1,4 @@
-//! C08: QBVH histories.  One protocol function `hist`: the arguments encode a whole operation list, the output is the
+//! C08: QBVH histories (pre_update_or_insert / remove / refit / rebalance / clear_and_rebuild).  One protocol function `hist`: the arguments encode a whole operation list, the output is the
 //! concatenation, after EVERY operation, of the delta of the full `Qbvh<u32>` state (raw_nodes, raw_proxies, root_aabb,
 //! dirty_nodes, free_list) against the state after the previous operation (hash-free; equal deltas from equal start = equal states).
 use crate::util::*;
@@ -435,11 +435,100 @@ pub fn gen(r: &mut Rng, thorough: bool) -> Vec<(String, String)> {
         let m = gen_margin(r, lat); h.refit(m);
         v.extend(h.queries(r, lat, 3));
     }
-    // histories with rebalance / clear_and_rebuild: not modelled yet, invariant oracle on the dumped Rust state only
+    // histories with rebalance / clear_and_rebuild judged by the invariant oracle on the dumped Rust state only
     let nfull = if thorough { 300 } else { 100 };
     for it in 0..nfull {
         let h = random_history_h(r, maxops, it % 2 == 0, true);
         v.push(("histo".to_string(), h.args()));
     }
+    // the same kind of histories compared state-for-state with the model (`hist`), plus structured ones
+    let nfull2 = if thorough { 400 } else { 120 };
+    for it in 0..nfull2 {
+        let h = random_history_h(r, maxops, it % 2 == 0, true);
+        v.push(h.finish());
+    }
+    let nst = if thorough { 12 } else { 2 };
+    for it in 0..nst {
+        let lat = it % 2 == 0;
+        for variant in 0..6 { v.push(rebuild_history(r, variant, lat)); }
+        v.push(park_free_list_history(r, lat));
+        v.push(shrink_grow_history(r, lat));
+    }
+    let ndeep = if thorough { 4 } else { 1 };
+    for it in 0..ndeep { v.push(deep_chain_history(r, it % 2 == 0)); }
     v
+}
+
+/// `clear_and_rebuild` on `n` boxes of one family (identical / degenerate / nested / grid / random; sizes around the
+/// 4- and 16-leaf thresholds), then rebalance, moves, refit, rebalance, a second rebuild
+fn rebuild_history(r: &mut Rng, variant: u64, lat: bool) -> (String, String) {
+    let fam = variant % 5;
+    let n = *r.pick(&[0usize, 1, 3, 4, 5, 6, 9, 16, 17, 23, 40, 64]);
+    let mut h = Hist::new(64);
+    if variant == 5 { for id in 0..7 { let b = gen_box(r, fam, lat); h.ins(id, b); } }   // pending dirty nodes survive the rebuild
+    let mut ids: Vec<usize> = (0..64).collect();
+    for i in 0..ids.len() { let j = i + r.below((ids.len() - i) as u64) as usize; ids.swap(i, j); }
+    let items: Vec<(usize, Aabb)> = ids[..n].iter().map(|i| (*i, gen_box(r, fam, lat))).collect();
+    let dil = *r.pick(&[0.0, 0.0, 0.01, 0.25]);
+    h.rebuild(&items, dil);
+    let m = gen_margin(r, lat);
+    if r.bool() { h.refit(m); }
+    h.rebalance(m);
+    h.refit(m);
+    let live: Vec<usize> = (0..64).filter(|i| h.live[*i]).collect();
+    for _ in 0..r.below(12) { if live.is_empty() { break; } let id = *r.pick(&live); let b = moved(r, &h.boxes[id].clone(), lat); h.ins(id, b); }
+    for _ in 0..r.below(6) { let id = r.below(64) as usize; if h.live[id] { h.rem(id); } else { let b = gen_box(r, fam, lat); h.ins(id, b); } }
+    let m = gen_margin(r, lat); h.refit(m); h.rebalance(m); h.refit(m);
+    let n2 = r.below(30) as usize;
+    let items: Vec<(usize, Aabb)> = ids[..n2].iter().map(|i| (*i, gen_box(r, fam, lat))).collect();
+    h.rebuild(&items, dil);
+    let m = gen_margin(r, lat); h.refit(m);
+    h.finish()
+}
+
+/// a rebalance that leaves ids parked in the free list, a rebuild on the same tree, growth, a rebalance that needs more
+/// nodes than it frees (seeded/C08-agent-m1)
+fn park_free_list_history(r: &mut Rng, lat: bool) -> (String, String) {
+    let fam = *r.pick(&[0u64, 4, 4, 3]);
+    let mut h = Hist::new(128);
+    let items: Vec<(usize, Aabb)> = (0..64).map(|i| (i, gen_box(r, fam, lat))).collect();
+    h.rebuild(&items, 0.0);
+    for id in 16..64 { h.rem(id); }
+    let m = gen_margin(r, lat); h.refit(m); h.rebalance(m);
+    let items: Vec<(usize, Aabb)> = (0..64).map(|i| (i, gen_box(r, fam, lat))).collect();
+    h.rebuild(&items, 0.0);
+    for id in 64..112 { let b = gen_box(r, fam, lat); h.ins(id, b); }
+    let m = gen_margin(r, lat); h.refit(m); h.rebalance(m); h.refit(m);
+    h.finish()
+}
+
+/// repeated shrink / rebalance / grow / rebalance cycles without rebuild: free-list reuse and fresh pushes
+fn shrink_grow_history(r: &mut Rng, lat: bool) -> (String, String) {
+    let fam = r.below(5);
+    let mut h = Hist::new(96);
+    let n0 = 20 + r.below(40) as usize;
+    for id in 0..n0 { let b = gen_box(r, fam, lat); h.ins(id, b); if r.below(7) == 0 { let m = gen_margin(r, lat); h.refit(m); } }
+    for _ in 0..3 {
+        let m = gen_margin(r, lat); h.refit(m); h.rebalance(m);
+        let live: Vec<usize> = (0..96).filter(|i| h.live[*i]).collect();
+        for id in &live { if r.below(3) == 0 { h.rem(*id); } }
+        let m = gen_margin(r, lat); h.refit(m); h.rebalance(m);
+        for _ in 0..r.below(40) { let id = r.below(96) as usize; let b = gen_box(r, fam, lat); h.ins(id, b); }
+    }
+    let m = gen_margin(r, lat); h.refit(m);
+    h.finish()
+}
+
+/// 200 consecutive insertions: 15 root splits put the first leaves below `FULL_REBUILD_DEPTH`; refit; rebalance takes the
+/// full-rebuild path; then ordinary updates
+fn deep_chain_history(r: &mut Rng, lat: bool) -> (String, String) {
+    let fam = *r.pick(&[0u64, 4]);
+    let n = 186 + r.below(14) as usize;
+    let mut h = Hist::new(210);
+    for id in 0..n { let b = gen_box(r, fam, lat); h.ins(id, b); if id % 50 == 49 && r.bool() { let m = gen_margin(r, lat); h.refit(m); } }
+    let m = gen_margin(r, lat); h.refit(m); h.rebalance(m);
+    for id in 0..10 { h.rem(id * 3); }
+    for id in 200..205 { let b = gen_box(r, fam, lat); h.ins(id, b); }
+    let m = gen_margin(r, lat); h.refit(m); h.rebalance(m); h.refit(m);
+    h.finish()
 }
